@@ -91,6 +91,16 @@ def gen_cases(rng, tier, scale):
             cases.append({'line': f'dv{kd} ' + ' ; '.join(ops + seq), 'kind': 'entries', 'tpl': via, 'nsetup': 4, 'main_idx': main_idx,
                           'pi': False, 'tags': ['dev-file-partial']})
             kd += 1
+    # dev mode with the ROOT template registered from a file: by-name entry points (which recompile the file) and ad-hoc
+    # entry points on the same text agree — also when the text ends in a standalone tag without a final line break
+    for kf, tsrc in enumerate(['a\n  {{#if v}}\n  b\n  {{/if}}', 'x\n{{!c}} ', 'y\n  {{> fp}}', 'z\n{{#each l}}\n{{this}}\n{{/each}}  ', 'plain {{v}}\n']):
+        Dj = jtok(D2)
+        FP = x('P{{v}}\n')
+        ops = ['dev 1', f'fw {x("f1")} {FP}', f'regf {x("fp")} {x("f1")}', f'fw {x("f2")} {x(tsrc)}', f'regf {x("main")} {x("f2")}', f'regs {x("other")} {x("o")}']
+        seq = [f'r {e} {x("main")} {Dj} -1' for e in (0, 1, 2, 3)] + [f'rt {e} {x(tsrc)} {Dj} -1' for e in (4, 5, 6, 7)]
+        obs_ops = [o for o in ops + seq if o.split(' ')[0] in ('regs', 'regf', 'r', 'rt')]
+        main_idx = [i for i, o in enumerate(obs_ops) if o.startswith('r ') or o.startswith('rt ')]
+        cases.append({'line': f'dvroot{kf} ' + ' ; '.join(ops + seq), 'kind': 'entries', 'tpl': tsrc, 'nsetup': 3, 'main_idx': main_idx, 'pi': False, 'tags': ['dev-file-root']})
     # recursion cut off by data, with another partial included before the recursive call inside the block: every entry
     # point (the root is named for 0-3, unnamed for 4-7) renders the same
     TREE = {'name': 'r', 'kids': [{'name': 'a', 'kids': [{'name': 'c', 'kids': []}]}, {'name': 'b', 'kids': []}]}
